@@ -79,6 +79,9 @@ type FuncFacts struct {
 	retOf map[*ssa.BasicBlock]*retInfo
 
 	events []*Event
+
+	guardsCache []*Guard
+	guardsDone  bool
 }
 
 type retInfo struct {
@@ -852,6 +855,15 @@ func (f *FuncFacts) rejEdges() (map[[2]int]bool, map[[2]int]string) {
 
 // Guards computes the rejection profile of the function.
 func (f *FuncFacts) Guards() []*Guard {
+	if f.guardsDone {
+		return f.guardsCache
+	}
+	gs := f.computeGuards()
+	f.guardsCache, f.guardsDone = gs, true
+	return gs
+}
+
+func (f *FuncFacts) computeGuards() []*Guard {
 	rejEdge := map[[2]int]bool{}
 	rejCode := map[[2]int]string{}
 	for _, b := range f.fn.Blocks {
